@@ -317,6 +317,12 @@ def targets(ctx):
         for m in ("linear", "lower"):
             out.append(("Scores.threshold_at_%s[%s]" % (name, m), SCORES + ".threshold_at_" + name,
                         lambda name=name, m=m: ev.call(ctx.method(S(), "threshold_at_" + name), [rq], {"method": Const(m)})))
+    # the setters transform the target differently per configuration (1 - r, the one-rank shift of right-continuous metrics): whether the
+    # caller's array is only read is decided for each of them
+    for name in METRICS:
+        for sc_, ec_ in (("pos", "pos"), ("pos", "neg"), ("neg", "neg")):
+            out.append(("Scores.threshold_at_%s[linear,%s/%s]" % (name, sc_, ec_), SCORES + ".threshold_at_" + name,
+                        lambda name=name, sc_=sc_, ec_=ec_: ev.call(ctx.method(ctx.scores_obj(sc_, ec_), "threshold_at_" + name), [rq], {"method": Const("linear")})))
     met = Sym("metric", ("callable", "param", "notnone"))
     for pts, lab in ((Const(None), "all"), (param("points"), "array")):
         out.append(("Scores.threshold_at_metric[%s]" % lab, SCORES + ".threshold_at_metric", lambda pts=pts: ev.call(ctx.method(S(), "threshold_at_metric"), [param("target"), met], {"points": pts})))
